@@ -206,16 +206,11 @@ def check_case(inputs, cmps, registry, dict_fields=(), dict_regex=()):
 def falsify(ctx):
     rng = ctx.rng("fals")
     registry = stages.make_registry()
-    focus = []
-    for m in ctx.focus:
-        if m and "samples" in m:
-            focus.append([("Root", m["samples"])])
-        elif m and "inputs" in m:
-            focus.append([tuple(x) for x in m["inputs"]])
+    focus = common.focus_cases(ctx)
     n = ctx.n(300, 8000)
     for i in range(len(focus) + n):
-        inputs = focus[i] if i < len(focus) else common.gen_inputs(rng, styled_p=0.1)
-        cmps = common.cmps_choice(rng)
+        inputs = focus[i][0] if i < len(focus) else common.gen_inputs(rng, styled_p=0.1)
+        cmps = (focus[i][1] if i < len(focus) else None) or common.cmps_choice(rng)
         try:
             hit = check_case(inputs, cmps, registry)
         except ZeroDivisionError:
